@@ -123,3 +123,180 @@ fr_h!(rprocfs_openat2_creation_refused, true, true);
 fr_h!(rprocfs_opath_creation_refused, false, true);
 fr_h!(rprocfs_openat2_dispatch_and_mask, true, false);
 fr_h!(rprocfs_opath_dispatch, false, false);
+
+// ---------------------------------------------------------------------------
+// O7.4: the emulated procfs walk itself (opath_resolve), small bounds.
+//   * '..' => EXDEV before anything is opened for it
+//   * absolute link body => ELOOP
+//   * every component is opened O_PATH|O_NOFOLLOW relative to the previous descriptor
+//   * every descriptor obtained during the walk has its mount id queried (statx on the
+//     descriptor itself) BEFORE it is used as a directory, read as a link, or returned
+//   * at most MAX link traversals; descriptors balanced
+
+/// link bodies: a concrete set indexed by a symbolic choice
+pub(crate) fn k_readlinkat_body<Fd: AsFd, P: AsRef<Path>>(dirfd: Fd, _path: P) -> Result<std::path::PathBuf, crate::syscalls::Error> {
+    let raw = dirfd.as_fd().as_raw_fd();
+    let k = kmut();
+    k.touch(raw);
+    let mut c = NO_CALL;
+    c.kind = C_READLINKAT;
+    c.dirfd = raw;
+    if k.fails() {
+        c.errno = any_errno();
+        k.push(c);
+        return Err(sys_err(raw, c.errno));
+    }
+    let sel: u8 = kani::any();
+    c.ok = true;
+    c.flags = sel as u64;
+    k.push(c);
+    Ok(std::path::PathBuf::from(match sel {
+        0 => "y",
+        1 => "/y",
+        2 => "../y",
+        _ => "..",
+    }))
+}
+
+fn statx_before(k: &Kernel, upto: usize, fd: i32) -> bool {
+    let mut seen = false;
+    let mut i = 0;
+    while i < MAX_CALLS {
+        if i < upto && i < k.ncalls && k.log[i].kind == C_STATX && k.log[i].dirfd == fd && k.log[i].name_len == 0 {
+            seen = true;
+        }
+        i += 1;
+    }
+    seen
+}
+
+fn walk_body(is_symlink: bool) {
+    install_close_model();
+    reset(3);
+    let root = given_fd(false);
+    // one component, symbolic bytes, no '/'
+    let buf: [u8; PATH_L] = kani::any();
+    let len: usize = kani::any();
+    kani::assume(len >= 1 && len <= PATH_L);
+    let mut i = 0;
+    while i < PATH_L {
+        if i < len {
+            kani::assume(buf[i] != b'/');
+        }
+        i += 1;
+    }
+    let p = Path::new(OsStr::from_bytes(&buf[..len]));
+    let bits: i32 = kani::any();
+    kani::assume(!is_creation(bits));
+    // shape: is the (first) component a symlink?  everything else symbolic
+    crate::verif_kani::kernel::scratch_set(if is_symlink { 1 } else { 2 }, 0, 0, 0);
+    let res = opath_resolve(borrow_fd(root), p, OpenFlags::from_bits_retain(bits), ResolverFlags::empty());
+    let (ok, retfd, kind) = match &res {
+        Ok(f) => (true, f.as_raw_fd(), None),
+        Err(e) => (false, -1, Some(cheap_kind(e))),
+    };
+    std::mem::forget(res);
+    let k = kref();
+    assert!(!k.any_violation());
+    let dotdot = len == 2 && buf[0] == b'.' && buf[1] == b'.';
+    let mut j = 0;
+    while j < MAX_CALLS {
+        if j < k.ncalls {
+            let c = k.log[j];
+            if c.kind == C_OPENAT {
+                // never follows, never opens '..'
+                assert!(c.flags & libc::O_NOFOLLOW as u64 != 0);
+                assert!(!(c.name_len == 2 && c.name[0] == b'.' && c.name[1] == b'.'), "walked into '..'");
+                assert!(single_component(&c.name, c.name_len));
+            }
+            // any descriptor the walk itself opened must have been mount-checked
+            // before it is used for anything else
+            if (c.kind == C_OPENAT || c.kind == C_READLINKAT || c.kind == C_FSTATAT) && c.dirfd != root {
+                let e = k.ent(c.dirfd).unwrap();
+                if e.origin == O_OPENED && e.parent != -1 && k.ent(e.parent).is_some() && k.fds[k.idx(c.dirfd).unwrap()].open_flags & libc::O_PATH as u64 != 0 {
+                    if !is_dup_of_root(k, c.dirfd, root) {
+                        assert!(statx_before(k, j, c.dirfd), "descriptor used before its mount id was checked");
+                    }
+                }
+            }
+        }
+        j += 1;
+    }
+    if dotdot {
+        assert!(!ok && kind == Some(ErrorKind::OsError(Some(libc::EXDEV))));
+        assert!(k.count(C_OPENAT) == 0);
+    }
+    if ok {
+        if !is_dup_of_root(k, retfd, root) {
+            assert!(k.ent(retfd).unwrap().statx_seen, "returned descriptor never mount-checked");
+        }
+    }
+    // absolute link body => ELOOP
+    let mut r = 0;
+    while r < MAX_CALLS {
+        if r < k.ncalls && k.log[r].kind == C_READLINKAT && k.log[r].ok && k.log[r].flags == 1 {
+            assert!(!ok && kind == Some(ErrorKind::OsError(Some(libc::ELOOP))));
+        }
+        r += 1;
+    }
+    assert!(k.n_open() == 1 + if ok { 1 } else { 0 });
+    kani::cover!(ok, "resolved");
+    kani::cover!(!ok && kind == Some(ErrorKind::OsError(Some(libc::EXDEV))), "EXDEV");
+    kani::cover!(!ok && kind == Some(ErrorKind::OsError(Some(libc::ELOOP))), "ELOOP");
+    kani::cover!(k.count(C_READLINKAT) >= 1, "link body read");
+}
+
+fn is_dup_of_root(k: &Kernel, fd: i32, root: i32) -> bool {
+    // the starting point is a dup of the root handle (same object as the verified root)
+    let mut i = 0;
+    let mut d = false;
+    while i < MAX_CALLS {
+        if i < k.ncalls && k.log[i].kind == C_DUP && k.log[i].dirfd == root && k.log[i].ret_fd == fd {
+            d = true;
+        }
+        i += 1;
+    }
+    d
+}
+
+/// metadata stub variant whose file type follows the scenario for descriptors
+/// opened by the walk: first opened component symlink / not symlink, later ones arbitrary
+pub(crate) fn k_metadata_walk<Fd: AsFd>(this: &Fd) -> Result<crate::utils::Metadata, Error> {
+    let raw = this.as_fd().as_raw_fd();
+    let scen = crate::verif_kani::kernel::scratch_get().0;
+    {
+        let k = kmut();
+        if let Some(i) = k.idx(raw) {
+            // fds: [0]=root, [1]=dup of root, [2]=first component (O_PATH), [3]=maybe reopen...
+            if i == 2 {
+                if scen == 1 {
+                    k.fds[i].st_mode = (k.fds[i].st_mode & !libc::S_IFMT) | libc::S_IFLNK;
+                } else {
+                    kani::assume(k.fds[i].st_mode & libc::S_IFMT != libc::S_IFLNK);
+                }
+            }
+        }
+    }
+    crate::utils::verif_h_fd::k_metadata(this)
+}
+
+macro_rules! walk_h {
+    ($name:ident, $sym:expr) => {
+        #[kani::proof]
+        #[kani::unwind(8)]
+        #[kani::stub(crate::syscalls::openat_follow, k_openat_follow)]
+        #[kani::stub(crate::syscalls::statx, k_statx)]
+        #[kani::stub(crate::syscalls::readlinkat, k_readlinkat_body)]
+        #[kani::stub(<std::os::unix::io::BorrowedFd<'static> as crate::utils::FdExt>::metadata, k_metadata_walk)]
+        #[kani::stub(std::os::fd::BorrowedFd::try_clone_to_owned, DupStub::k_try_clone_to_owned)]
+        #[kani::stub(mc::memchr::memchr, k_memchr)]
+        #[kani::stub(mc::memchr::memrchr, k_memrchr)]
+        #[kani::stub(alloc::fmt::format, k_format)]
+        fn $name() {
+            walk_body($sym);
+        }
+    };
+}
+use ::memchr as mc;
+walk_h!(rprocfs_walk_one_component_plain, false);
+walk_h!(rprocfs_walk_one_component_symlink, true);
